@@ -116,6 +116,8 @@ def gen_broker_scenario(rng, lazy=False, style=None, malformed=False, limit_orde
     ops = []
     first = {s: prices[s][0] for s in SYMS}
     cash = rng.choice([100.0, 1000.0, 10000.0, 100000.0])
+    if rng.random() < 0.04:
+        cash = rng.choice([1e22, 4e19, 3e300])      # share counts beyond every integer type, values near overflow
     ops.append(dict(op="deposit", x=f2b(cash)))
     pat = rng.random()
     s0 = rng.choice(SYMS)
@@ -149,7 +151,13 @@ def gen_broker_scenario(rng, lazy=False, style=None, malformed=False, limit_orde
         m = float(rng.choice([2, 3, 7]))
         open_side, close_side = rng.choice([("MarketSell", "MarketBuy"), ("MarketBuy", "MarketSell")])
         reopen = rng.choice(["MarketBuy", "MarketBuy", "MarketSell"])
-        for t, q in ((open_side, k), (close_side, k), (reopen, m)):
+        legs = [(open_side, k), (close_side, k), (reopen, m)]
+        if rng.random() < 0.4:
+            # flat TWICE before the position that is open at the end (with prices moving in between, the second round
+            # trip realises a profit or loss that must not leak into the new basis)
+            k2 = float(rng.choice([2, 4, 9]))
+            legs = [(open_side, k), (close_side, k), (open_side, k2), (close_side, k2), (reopen, m)]
+        for t, q in legs:
             ops.append(dict(op="send", order=order(t, s0, q)))
             ops += [dict(op="check"), dict(op="getters")]
         if rng.random() < 0.5:
